@@ -29,8 +29,11 @@ import Martian.TypingPipeline
 namespace Martian.Typing
 open Martian.Json Martian.Types
 
-/-- `lookup.GetArray(dest, -1)` (a destination that is not an array has no such
-type: the lookup returns nil) -/
+/-- `lookup.GetArray(dest, -1)`.  For a destination that is NOT an array the model
+returns `none` (no destination); the real lookup builds an `ArrayType` with
+dimension −1 (type_lookup.go Get / GetArray; audit pass 2, LOW-2).  Such pairs
+are rejected at compile time, so the run time never asks (harness: histogram
+`path_rejected_pair_differs`). -/
 def peelArrD : Option Ty → Option Ty
   | some (.arr d) => some d
   | _ => none
